@@ -59,7 +59,11 @@ def contention(ctx, parts=("contend", "generic", "names", "invalid", "custom", "
         seg = err.split("VPROBE-BEGIN", 1)[1].split("VPROBE-END", 1)[0]
         lines = [l for l in seg.splitlines() if "Running dependency:" in l]
         late, early = sum("VpLate" in l for l in lines), sum("VpEarly" in l for l in lines)
-        ctx.coverage["verbose_late_probe"] = {"late": late, "early": early}
+        meth = sum(l.strip() == "Running dependency: main.(*vpOps).Push-fm" for l in lines)
+        ctx.coverage["verbose_late_probe"] = {"late": late, "early": early, "method_value_line": meth}
+        if meth != 1:
+            ctx.violation({"kind": "oracle", "oracle": "C01", "clauses": ["with MAGEFILE_VERBOSE=1 the line 'Running dependency: main.(*vpOps).Push-fm' (a pointer-receiver method value) appeared %d times, must be exactly once and spelled as the function is named" % meth]},
+                          case={"call": "mg.Deps(VpLate, VpEarly, ops.Push)", "stderr": seg[-600:]})
         if late != 1 or early != 0:
             ctx.violation({"kind": "oracle", "oracle": "C01", "clauses": ["MAGEFILE_VERBOSE=1 exported after a first dependency ran unverbosely (what a compiled magefile given -v does after init()): 'Running dependency:' printed %d times for the dependency executed afterwards (must be 1) and %d times for the one that had already run (must be 0)" % (late, early)]},
                           case={"call": "unset MAGEFILE_VERBOSE; mg.Deps(VpEarly); MAGEFILE_VERBOSE=1; mg.Deps(VpLate, VpEarly)", "stderr": seg[-600:]})
@@ -79,6 +83,13 @@ def contention(ctx, parts=("contend", "generic", "names", "invalid", "custom", "
         ctx.coverage["long_wait_probe_ms"] = spec["contend"]["long_ms"]
         if r.get("long_wait"):
             ctx.violation({"kind": "oracle", "oracle": "C02", "clauses": [r["long_wait"]]}, case={"call": "mg.SerialDeps(longDep)", "long_ms": spec["contend"]["long_ms"]})
+    ctx.coverage["rerequest_after_many_probe"] = r.get("rerequest_after_many")
+    if "wide" in parts and r.get("rerequest_after_many") and r["rerequest_after_many"] != [1, 1, 1, 1]:
+        ctx.violation({"kind": "oracle", "oracle": "C01/C13", "clauses": ["dependencies that had finished were requested again after more than 10 000 other dependencies had been registered: executions now %s, must stay 1 each" % r["rerequest_after_many"]]},
+                      case={"call": "mg.Deps(NmBuild, NmF1); mg.SerialDeps(NmBuildAll, VpEarly) after the wide calls"})
+    ctx.coverage["crowd_probe"] = r.get("crowd")
+    if "wide" in parts and r.get("crowd"):
+        ctx.violation({"kind": "oracle", "oracle": "C02", "clauses": [r["crowd"]]}, case={"call": "harness/depsrun/contend.go crowdProbe"})
     ctx.coverage["wide_calls_probe"] = r.get("wide")
     if "wide" in parts and r.get("wide"):
         ctx.violation({"kind": "oracle", "oracle": "C02", "clauses": ["one call naming many dependencies: %s" % "; ".join(r["wide"][:4])]},
